@@ -69,40 +69,6 @@ theorem filter_full_statement_fails_nonadjacent :
 
 /-! ## the main clause, relation by relation -/
 
-theorem lookup_of_mem {α} : ∀ (s : List (Name × α)) (t : Name) (v : α),
-    (s.map (·.1)).Nodup → (t, v) ∈ s → s.lookup t = some v
-  | [], _, _, _, h => by simp at h
-  | (k, w) :: rest, t, v, hnd, h => by
-    simp only [List.map_cons, List.nodup_cons] at hnd
-    rcases List.mem_cons.mp h with e | e
-    · cases e
-      simp [List.lookup]
-    · have hne : t ≠ k := by
-        intro e'
-        subst e'
-        exact hnd.1 (List.mem_map_of_mem (f := (·.1)) e)
-      have : (t == k) = false := by simpa using hne
-      simp only [List.lookup, this]
-      exact lookup_of_mem rest t v hnd.2 e
-
-theorem mem_names {s : Schema} {t : Name} {f : List Field} (h : (t, f) ∈ s) : t ∈ s.names :=
-  List.mem_map_of_mem (f := (·.1)) h
-
-theorem contains_names {s : Schema} {t : Name} {f : List Field} (h : (t, f) ∈ s) :
-    s.names.contains t = true := by
-  simp [mem_names h]
-
-theorem keeps_plain {s : Schema} {t : Name} {f : List Field} (h : (t, f) ∈ s) : keeps s false t = true := by
-  simp [keeps, mem_names h]
-
-theorem keeps_skeleton {s : Schema} {t : Name} {f : List Field} (h : (t, f) ∈ s) :
-    keeps s true t = coreFiles.contains t := by
-  simp [keeps, mem_names h]
-
-theorem cleanupOne_keep (r : RelFiles) : cleanupOne true false r = r := by
-  cases r with
-  | mk tx gz => cases tx <;> cases gz <;> simp [cleanupOne]
-
 /-- operational core: after a successful `mkprof(dest, source=<profile>)`, the relation `t` of the
 destination schema is one `tsdb.write` of the records `_mkprof_from_database` computed for it (all of
 the right width), followed by the clean-up tests. -/
@@ -130,7 +96,7 @@ theorem mkprofDb_relation (now : Nat) (src dst d : Dir) (p : DbParams) (ss : Sch
     obtain ⟨recs, rows, h1, h2, h3⟩ := hl.2 t newF ht
     have hst := L.stage_ok h2
     refine ⟨rfl, recs, h1, hst.2, ?_⟩
-    have hmem : (p.schema.getD ss).names.contains t = true := contains_names ht
+    have hmem : (p.schema.getD ss).names.contains t = true := L.contains_names ht
     simp only [cleanup, hmem, Bool.true_or, if_true, h3, hst.1]
 
 /-- the rows a copied relation is made of: what the filter selects (all rows without a filter or when
@@ -213,8 +179,8 @@ theorem mkprofDb_copied_relation (now : Nat) (src dst d : Dir) (p : DbParams) (s
         · cases hsel; exact List.Sublist.refl _
         · cases hsel
     refine ⟨sel, rfl, hsub, ?_⟩
-    have hk : keeps (p.schema.getD ss) p.skeleton t = true := by rw [hsk]; exact keeps_plain ht
-    rw [h3, hk, hsk, cleanupOne_keep, L.read_writeRel, ← h1]
+    have hk : keeps (p.schema.getD ss) p.skeleton t = true := by rw [hsk]; exact L.keeps_plain ht
+    rw [h3, hk, hsk, L.cleanupOne_keep, L.read_writeRel, ← h1]
     simp only [List.map_map, Option.some.injEq]
     apply List.map_congr_left
     intro r hr
@@ -250,8 +216,8 @@ theorem mkprofDb_uncopied_relation (now : Nat) (src dst d : Dir) (p : DbParams) 
   obtain ⟨_, recs, h1, _, h3⟩ := mkprofDb_relation now src dst d p ss hs hnd hrun t newF ht
   rw [dbRecords_not_copied ss src.files p _ t newF (Or.inr h)] at h1
   cases h1
-  have hk : keeps (p.schema.getD ss) p.skeleton t = true := by rw [hsk]; exact keeps_plain ht
-  rw [h3, hk, hsk, cleanupOne_keep, L.read_writeRel]
+  have hk : keeps (p.schema.getD ss) p.skeleton t = true := by rw [hsk]; exact L.keeps_plain ht
+  rw [h3, hk, hsk, L.cleanupOne_keep, L.read_writeRel]
   rfl
 
 /-! ## "A skeleton contains only the non-empty core relations, a full copy contains all relations" -/
@@ -272,12 +238,12 @@ theorem mkprofDb_files (now : Nat) (src dst d : Dir) (p : DbParams) (ss : Schema
   obtain ⟨_, recs, h1, _, h3⟩ := mkprofDb_relation now src dst d p ss hs hnd hrun t newF ht
   refine ⟨recs, h1, ?_, ?_⟩
   · intro hsk
-    have hk : keeps (p.schema.getD ss) p.skeleton t = true := by rw [hsk]; exact keeps_plain ht
-    rw [h3, hk, hsk, cleanupOne_keep]
+    have hk : keeps (p.schema.getD ss) p.skeleton t = true := by rw [hsk]; exact L.keeps_plain ht
+    rw [h3, hk, hsk, L.cleanupOne_keep]
     unfold writeRel
     cases p.gzip <;> cases recs <;> simp
   · intro hsk
-    have hk : keeps (p.schema.getD ss) p.skeleton t = coreFiles.contains t := by rw [hsk]; exact keeps_skeleton ht
+    have hk : keeps (p.schema.getD ss) p.skeleton t = coreFiles.contains t := by rw [hsk]; exact L.keeps_skeleton ht
     rw [h3, hk, hsk]
     unfold writeRel cleanupOne
     cases p.gzip <;> cases recs <;> cases coreFiles.contains t <;> simp
@@ -382,10 +348,6 @@ theorem mkprofDb_total (now : Nat) (src dst : Dir) (p : DbParams) (ss : Schema)
 
 /-! ## "refreshing in place (optionally changing compression or schema) preserves all data" -/
 
-theorem refreshRecords_local (old : Schema) (b : Bool) (fs1 fs2 : Files) (t : Name) (f : List Field)
-    (h : fs1 t = fs2 t) : refreshRecords old b fs1 t f = refreshRecords old b fs2 t f := by
-  simp [refreshRecords, h]
-
 /-- after a successful in-place refresh (any `gzip`, with or without a new schema) every relation of
 the (non-skeleton) profile that was declared before reads back as its previous rows, one for one and
 in order, cells `defaulted`; with `schema=` given records are matched to the new fields by name.
@@ -409,12 +371,12 @@ theorem refresh_preserves_rows (now : Nat) (dst d : Dir) (schema : Option Schema
     simp only [Prod.mk.injEq, and_true] at hrun
     subst hrun
     have hl := L.writeLoop_ok now gzip (refreshRecords old schema.isSome)
-      (refreshRecords_local old schema.isSome) _ _ _ hnd hw
+      (L.refreshRecords_local old schema.isSome) _ _ _ hnd hw
     obtain ⟨recs, rows, h1, h2, h3⟩ := hl.2 t newF ht
     have hst := L.stage_ok h2
-    have hmem : (schema.getD old).names.contains t = true := contains_names ht
-    have hk : keeps (schema.getD old) false t = true := keeps_plain ht
-    simp only [cleanup, hmem, Bool.true_or, if_true, h3, hk, cleanupOne_keep, L.read_writeRel, hst.1]
+    have hmem : (schema.getD old).names.contains t = true := L.contains_names ht
+    have hk : keeps (schema.getD old) false t = true := L.keeps_plain ht
+    simp only [cleanup, hmem, Bool.true_or, if_true, h3, hk, L.cleanupOne_keep, L.read_writeRel, hst.1]
     unfold refreshRecords at h1
     cases hold : old.lookup t with
     | none =>
@@ -450,5 +412,100 @@ theorem defaulted_idem (f : Field) (c : Cell) : defaulted f (defaulted f c) = de
     cases h : readCell f.default with
     | none => simp
     | some t => rfl
+
+/-! ## "every field value unchanged apart from columns added or dropped by a different target schema" -/
+
+/-- matching by name (source field names unique, record of the relation's width): a target field
+named like the `i`-th source column holds exactly that column's value, wherever it now stands. -/
+theorem remake_same_name (oldF newF : List Field) (r : Rec) (hnd : (oldF.map (·.name)).Nodup)
+    (hw : r.length = oldF.length) (j : Nat) (hj : j < newF.length) (i : Nat) (hi : i < oldF.length)
+    (hname : newF[j].name = oldF[i].name) :
+    (remake oldF newF r)[j]'(by simp [remake, hj]) = r[i]'(by omega) := by
+  have h := L.lookupLast_zip_nodup (oldF.map (·.name)) r hnd i (by simpa using hi) (by omega)
+  simp only [List.getElem_map] at h
+  simp [remake, hname, h]
+
+/-- a target column the source relation does not have is empty (and is then written as its default);
+a source column the target does not have is dropped (`remake` has exactly the target's width). -/
+theorem remake_new_column (oldF newF : List Field) (r : Rec) (j : Nat) (hj : j < newF.length)
+    (h : newF[j].name ∉ oldF.map (·.name)) :
+    (remake oldF newF r)[j]'(by simp [remake, hj]) = none ∧ (remake oldF newF r).length = newF.length := by
+  simp [remake, L.lookupLast_zip_not_mem _ r _ h]
+
+/-! ## "a profile created from sentence lines has one item per line with identifiers,
+well-formedness marks and lengths as documented" -/
+
+/-- `i-wf` is 0 exactly for a line starting with `*`, and the `*` is removed from `i-input`. -/
+theorem plain_split_star (rest : Text) : Splitter.plain.split ('*' :: rest) = .ok [.int 0, .str rest] := rfl
+
+theorem plain_split_nostar (line : Text) (h : line.head? ≠ some '*') :
+    Splitter.plain.split line = .ok [.int 1, .str line] := by
+  cases line with
+  | nil => rfl
+  | cons c cs =>
+    have hc : c ≠ '*' := by intro e; apply h; simp [e]
+    simp only [Splitter.split]
+    split
+    · rename_i heq
+      simp only [List.cons.injEq] at heq
+      exact absurd heq.1 hc
+    · rfl
+
+/-- one item per data line: a successful run leaves in `item` as many rows as there are input lines
+(minus the header line for delimited input), whatever the delimiter and the flags. -/
+theorem lines_one_item_per_line (now : Nat) (dst d : Dir) (sch : Schema) (delim : Option Text)
+    (lines : List Text) (gzip : Bool) (fields : List Field) (hitem : ("item", fields) ∈ sch)
+    (hnd : sch.names.Nodup)
+    (hrun : mkprofLines now dst (some sch) delim lines gzip false = (d, none)) :
+    ∃ rows, (d.files "item").read = some rows ∧
+      rows.length = (match Splitter.ofDelim delim with
+                     | .plain => lines.length
+                     | _ => lines.length - 1) := by
+  have hlk : sch.lookup "item" = some fields := L.lookup_of_mem sch "item" fields hnd hitem
+  unfold mkprofLines at hrun
+  cases sch with
+  | nil => simp at hitem
+  | cons s0 srest =>
+    simp only at hrun
+    generalize Splitter.ofDelim delim = sp at hrun ⊢
+    cases hms : makeSplit sp lines with
+    | error e => simp [hms] at hrun
+    | ok cr =>
+      obtain ⟨colnames, rest⟩ := cr
+      simp only [hms, hlk] at hrun
+      split at hrun
+      · simp at hrun
+      · cases hll : linesLoop fields colnames sp 1 [] rest with
+        | error e => simp [hll] at hrun
+        | ok recs =>
+          simp only [hll, Prod.mk.injEq, and_true] at hrun
+          subst hrun
+          have hlen := L.linesLoop_length fields colnames _ rest 1 [] recs hll
+          refine ⟨(recs.map (encodeL fields)).map readRow, ?_, ?_⟩
+          · simp only [cleanup, L.contains_names hitem, Bool.true_or, if_true, L.keeps_plain hitem,
+              L.cleanupOne_keep, Files.set, L.read_writeRel]
+          · simp only [List.length_map, hlen]
+            cases sp with
+            | plain =>
+              simp only [makeSplit, Except.ok.injEq, Prod.mk.injEq] at hms
+              rw [← hms.2]
+            | tsdb =>
+              cases lines with
+              | nil => simp [makeSplit] at hms
+              | cons h t =>
+                simp only [makeSplit] at hms
+                split at hms
+                · cases hms
+                · simp only [Except.ok.injEq, Prod.mk.injEq] at hms
+                  simp [← hms.2]
+            | sep dd =>
+              cases lines with
+              | nil => simp [makeSplit] at hms
+              | cons h t =>
+                simp only [makeSplit] at hms
+                split at hms
+                · cases hms
+                · simp only [Except.ok.injEq, Prod.mk.injEq] at hms
+                  simp [← hms.2]
 
 end Verif.C12
